@@ -558,7 +558,7 @@ LAST_CASES = []
 
 def generate(rng, tier):
     big = tier == 'thorough'
-    n = 20000 if big else 300
+    n = 4000 if big else 300
     cases = boundary_cases()
     agg = {}
     info = {'histories': 0, 'judged': 0, 'malformed': 0, 'drained': 0, 'sub_term_crossings': 0, 'hist_crossing_terms': 0, 'hist_with_bp': 0,
